@@ -144,7 +144,103 @@ func variant() *eng.Variant {
 	}
 }
 
+// upvalueLayout: functions with k upvalues (with and without a global among
+// them) are dumped and reloaded; the reloaded function must have the same
+// number of upvalues under the same names, every upvalue a fresh variable of
+// its own (distinct ids; writing one does not show in another), independent of
+// the original function's variables.
+func upvalueLayout(c *vp.Child) {
+	n := 0
+	for k := 1; k <= 7; k++ {
+		for _, useGlobal := range []bool{false, true} {
+			for _, firstWrite := range []int{1, 2, k} {
+				if firstWrite > k {
+					continue
+				}
+				n++
+				var b strings.Builder
+				names := make([]string, k)
+				for i := range names {
+					names[i] = fmt.Sprintf("u%d", i+1)
+				}
+				fmt.Fprintf(&b, "local %s = %s\n", strings.Join(names, ", "), strings.Join(func() []string {
+					v := make([]string, k)
+					for i := range v {
+						v[i] = fmt.Sprint((i + 1) * 11)
+					}
+					return v
+				}(), ", "))
+				// f writes one upvalue and returns all of them (and touches a global if asked)
+				fmt.Fprintf(&b, "local function f(x)\n  %s = x\n", names[firstWrite-1])
+				if useGlobal {
+					b.WriteString("  local _ = type(x)\n")
+				}
+				fmt.Fprintf(&b, "  return %s\nend\n", strings.Join(names, ", "))
+				b.WriteString(`local g = assert(load(string.dump(f), "chunk", "b"))
+local nf, ng = {}, {}
+for i = 1, 20 do local n = debug.getupvalue(f, i); if not n then break end nf[#nf + 1] = n end
+for i = 1, 20 do local n = debug.getupvalue(g, i); if not n then break end ng[#ng + 1] = n end
+emit("names", table.concat(nf, ","), table.concat(ng, ","))
+local distinct = true
+for i = 1, #ng do for j = i + 1, #ng do if debug.upvalueid(g, i) == debug.upvalueid(g, j) then distinct = false end end end
+emit("distinct ids", distinct)
+for i = 1, #ng do debug.setupvalue(g, i, i * 100) end
+local vals = {}
+for i = 1, #ng do local _, v = debug.getupvalue(g, i); vals[#vals + 1] = v end
+emit("own cells", table.unpack(vals))
+`)
+				// behaviour without the debug library: a reloaded function that writes one of its
+				// upvalues and returns the others sees nil in the others
+				fmt.Fprintf(&b, "local function w()\n  %s = 5\n  return %s\nend\n", names[firstWrite-1], strings.Join(names, ", "))
+				b.WriteString("local r = table.pack(load(string.dump(w))())\nlocal fives = 0\nfor i = 1, r.n do if r[i] == 5 then fives = fives + 1 end end\nemit(\"written once\", r.n, fives)\n")
+				fmt.Fprintf(&b, "emit(\"originals\", %s)\n", strings.Join(names, ", "))
+				text := b.String()
+				if !c.Mine(n) {
+					continue
+				}
+				c.Begin(fmt.Sprintf("upvalues/k%d/g%v/w%d", k, useGlobal, firstWrite), text)
+				out := eng.RunText(text, nil)
+				c.Eval(1)
+				c.NonTrivial(vp.Hash(text))
+				fail := func(what string) {
+					c.Violation("upvalue-layout", fmt.Sprintf("k=%d global=%v: %s", k, useGlobal, what), fmt.Sprintf("%s\noutcome: %s", what, out.String()), text)
+				}
+				if out.Kind != gl.OK || len(out.TraceV) != 5 {
+					fail("the template did not run to its end: " + out.Kind + " " + out.ErrMsg)
+					continue
+				}
+				tv := out.TraceV
+				if len(tv[0]) != 3 || tv[0][1] != tv[0][2] {
+					fail("the reloaded function's upvalue names differ from the original's: " + strings.Join(tv[0], " "))
+				}
+				if len(tv[1]) != 2 || tv[1][1] != "b:true" {
+					fail("two upvalues of the reloaded function are the same variable (upvalueid)")
+				}
+				for i := 1; i < len(tv[2]); i++ {
+					if tv[2][i] != fmt.Sprintf("i:%d", i*100) {
+						fail(fmt.Sprintf("after setting upvalue i to i*100 for every i, upvalue %d holds %s", i, tv[2][i]))
+						break
+					}
+				}
+				if len(tv[3]) != 3 || tv[3][1] != fmt.Sprintf("i:%d", k) || tv[3][2] != "i:1" {
+					fail("a reloaded function that writes 5 to one upvalue and returns all of them returned: " + strings.Join(tv[3], " ") + " (expected exactly one 5)")
+				}
+				for i := 1; i < len(tv[4]); i++ {
+					if tv[4][i] != fmt.Sprintf("i:%d", i*11) {
+						fail("the original function's variables changed: " + strings.Join(tv[4], " "))
+						break
+					}
+				}
+				c.Feature("upvalue-layout-cases", 1)
+			}
+		}
+	}
+}
+
 func (Prop) RunBatch(c *vp.Child) {
+	if c.Stage == "dump-load" {
+		upvalueLayout(c)
+	}
 	var wrapped int64
 	cp := eng.Corpus{
 		Programs: c.Pick(2000, 60000),
